@@ -83,12 +83,24 @@ COMMON_ASSUMPTIONS = [
 ]
 
 
+UBSAN = [C.Config([], "gcc", 11, "ubsan"), C.Config(["POPCNT", "LZCNT", "BMI", "BMI2"], "gcc", 11, "ubsan")]
+
+
 def int_cfgs(tier):
     return C.quick_configs(scalar=False) if tier == "quick" else C.thorough_configs()
 
 
+def int_ubsan_cfgs(tier):
+    """+ the intrinsic-free builds (width-1 vectors, scalar functions) under UBSan: 'never undefined'"""
+    return int_cfgs(tier) + UBSAN[:1]
+
+
 def scalar_cfgs(tier):
     return C.quick_configs(scalar=True) if tier == "quick" else C.thorough_configs()
+
+
+def scalar_ubsan_cfgs(tier):
+    return scalar_cfgs(tier) + UBSAN
 
 
 PENDING = {}
@@ -111,7 +123,7 @@ def prefetch_cfgs(tier):
 PROPS = {
     "C01": {
         "tus": ["t_arith"],
-        "configs": int_cfgs,
+        "configs": int_ubsan_cfgs,
         "rule": "phase 1: every operand tuple of the declared domain (8-bit: all pairs; 16-bit: D16xL16 u L16xD16 quick, all 2^32 pairs thorough; "
                 "32/64-bit: boundary lattice L x L), packed W different tuples per vector; phase 2: every K x K tuple in every lane position "
                 "against six neighbour fills. distinct_nontrivial counts phase-1 tuples (distinct by construction per configuration class, subject, "
@@ -155,7 +167,7 @@ PROPS = {
     },
     "C04": {
         "tus": ["t_bitwise", "t_shiftc"],
-        "configs": scalar_cfgs,
+        "configs": scalar_ubsan_cfgs,
         "rule": "values: every 8/16-bit value, the L32/L64 one-/two-bit, mask and boundary patterns; amounts: every shift amount 0..bits, rotation amounts "
                 "0..2*bits+1, k*bits+r, negative, +-2^31, +-2^62, LLONG_MIN/MAX (scalar forms) and 0..2*bits+1 plus K (per-lane forms); per-lane forms "
                 "carry a different amount in every lane; K x K in every lane against in-domain neighbour fills. non-trivial: amount 0 or bits (or outside 0..bits for rotations), "
